@@ -149,11 +149,22 @@ where
         }
         Ok(Err(err)) => {
             clean_on_error();
+            // All the elements are dropped, release the allocation
+            unsafe {
+                manually_drop.set_len(0);
+            }
+            drop(ManuallyDrop::into_inner(manually_drop));
             Err(err)
         }
         Err(err) => {
             clean_on_error();
-            panic!("{:?}", err);
+            // All the elements are dropped, release the allocation
+            unsafe {
+                manually_drop.set_len(0);
+            }
+            drop(ManuallyDrop::into_inner(manually_drop));
+            // Hand the original payload over to the caller
+            std::panic::resume_unwind(err);
         }
     }
 }
